@@ -13,6 +13,7 @@ from __future__ import annotations
 
 import itertools
 import json
+import os
 import logging
 import sys
 import warnings
@@ -80,12 +81,17 @@ def gen_spec(rng, force_big=False):
     return {"rxns": rxns, "obj": {"BIO": "1"}, "dir": "max", "groups": [], "extra_mets": []}
 
 
+def fb(x):
+    """A bound of a spec: None when infinite."""
+    return None if x in ("inf", "-inf") else F(x)
+
+
 def exchanges_of(spec):
     out = {}
     for r in spec["rxns"]:
         if r["id"].startswith("EX_"):
             coef = F(list(r["st"].values())[0])
-            out[r["id"]] = {"reactant": coef < 0, "lb": F(r["lb"]), "ub": F(r["ub"])}
+            out[r["id"]] = {"reactant": coef < 0, "lb": fb(r["lb"]), "ub": fb(r["ub"])}
     return out
 
 
@@ -98,7 +104,7 @@ def import_lp(spec, min_obj, open_bound=None, allowed=None, fixed_import=None):
     rows = [([F(r["st"].get(m, "0")) for r in rx] + [-F(r["st"].get(m, "0")) for r in rx], F(0), F(0)) for m in mids]
     sel = {}
     for j, r in enumerate(rx):
-        lo, hi = F(r["lb"]), F(r["ub"])
+        lo, hi = fb(r["lb"]), fb(r["ub"])
         if r["id"].startswith("EX_") and open_bound is not None:
             lo, hi = -F(open_bound), F(open_bound)
         a = [F(0)] * (2 * n)
@@ -256,6 +262,17 @@ def gen_case(rng):
                 "exports": rng.random() < 0.3, "minimize_components": rng.random() < 0.7, "open_exchanges": False,
                 "history": rng.choice(fbagen.HISTORIES)}
     spec = gen_spec(rng)
+    if rng.random() < 0.1:
+        # unlimited export (an infinite export bound next to a finite import bound), minimal media only
+        for r in spec["rxns"]:
+            if r["id"].startswith("EX_") and rng.random() < 0.6:
+                if F(list(r["st"].values())[0]) < 0 and F(r["ub"]) > 0:
+                    r["ub"] = "inf"
+                elif F(list(r["st"].values())[0]) > 0 and F(r["lb"]) < 0:
+                    r["lb"] = "-inf"
+        return {"kind": "minimal", "spec": spec, "min_objective_value": rng.choice(["1", "5", "20", "50", "50", "100"]),
+                "exports": rng.random() < 0.3, "minimize_components": False, "open_exchanges": False,     # the MIP aborts in GLPK on an infinite bound (known finding)
+                "history": rng.choice(fbagen.HISTORIES)}
     exs = exchanges_of(spec)
     if rng.random() < 0.5:
         ids = rng.sample(sorted(exs), rng.randint(0, len(exs)))
@@ -326,6 +343,17 @@ def run(ctx):
         corr_n += case["kind"] == "setter"
         if fails:
             ctx.violations.append({"engine": "medium vs independent oracle / certified optima", "case": {k: v for k, v in case.items() if not k.startswith("_")}, "failures": fails[:6]})
+    for kf in common.known_for("C18"):
+        w = kf.get("witness") or {}
+        if "script" in w:
+            # a finding whose symptom is the death of the interpreter: the witness runs in a process of its own
+            import subprocess
+            p = subprocess.run([common.repo_python(), "-c", w["script"]], capture_output=True, text=True, timeout=300,
+                               env=dict(os.environ, PYTHONPATH=str(common.REPO / "src")))
+            if p.returncode != 0 and ("glp_" in (p.stdout + p.stderr) or "invalid scale factor" in (p.stdout + p.stderr)):
+                ctx.known_hits.append(f"{kf['signature']}: {kf['description'][:200]}")
+            else:
+                ctx.notes.append(f"known finding {kf['signature']} no longer reproduces (exit {p.returncode})")
     ctx.coverage.update({
         "evaluations": ran, "distinct_nontrivial": len(distinct),
         "rule": "models with 2-5 exchanged metabolites (exchange written `met -->` or `--> met`, external compartment e, transporters, conversions, a biomass "
